@@ -20,9 +20,12 @@ Definition get_status : dec status :=
   x <- get_z ;; if x =? 0 then ret Good else if x =? 1 then ret Revoked else
                 if x =? 2 then ret Unknown else (fun _ => None).
 
+Definition get_rcert : dec rcert :=
+  na <- get_z ;; nb <- get_z ;; ek <- get_bool ;; iss <- get_bool ;; ret (RC na nb ek iss).
+
 Definition get_resp : dec resp :=
-  s <- get_status ;; ser <- get_z ;; th <- get_z ;; nx <- get_z ;; na <- get_opt get_z ;;
-  sg <- get_bool ;; ret (Resp s ser th nx na sg).
+  s <- get_status ;; ser <- get_z ;; th <- get_z ;; nx <- get_z ;; rc <- get_opt get_rcert ;;
+  sg <- get_bool ;; ret (Resp s ser th nx rc sg).
 
 Fixpoint number {A} (i : Z) (l : list A) : list (Z * A) :=
   match l with [] => [] | x :: r => (i, x) :: number (i + 1) r end.
@@ -81,6 +84,11 @@ Definition get_outcome (bl : list blob) (cl : list cert) : dec renew_outcome :=
   if t =? 1 then (c <- get_ref cl ;; e <- get_env bl ;; ret (ROk c e)) else
   if t =? 2 then ret RReloadFail else (fun _ => None).
 
+(** who visits a certificate in a pass: 0 the tick, 1 a handshake, 2 manageOne, 3 nobody *)
+Definition get_kind : dec mkind :=
+  x <- get_z ;; if x =? 0 then ret KTick else if x =? 1 then ret KHandshake else
+                if x =? 2 then ret KManage else if x =? 3 then ret KSkip else (fun _ => None).
+
 Definition default_env : env := Env ARefused false false false.
 
 Definition get_op (bl : list blob) (cl : list cert) : dec op :=
@@ -88,10 +96,11 @@ Definition get_op (bl : list blob) (cl : list cert) : dec op :=
   if t =? 0 then (c <- get_ref cl ;; v <- get_opt (get_ref bl) ;; ret (OTamper (c_id c) v)) else
   if t =? 1 then (c <- get_ref cl ;; m <- get_bool ;; d <- get_bool ;; e <- get_env bl ;;
                   now <- get_z ;; ret (OCache c m d e now)) else
-  if t =? 2 then (d <- get_bool ;; now <- get_z ;;
+  if t =? 2 then (kd <- get_kind ;; ks <- get_list (get_pair get_z get_kind) ;;
+                  d <- get_bool ;; now <- get_z ;;
                   envs <- get_list (get_pair get_z (get_env bl)) ;;
                   rns <- get_list (get_pair get_z (get_outcome bl cl)) ;;
-                  ret (OMaintain d now (alookup default_env envs) (alookup RFail rns))) else
+                  ret (OMaintain (alookup kd ks) d now (alookup default_env envs) (alookup RFail rns))) else
   if t =? 3 then ret ORestart else (fun _ => None).
 
 Definition get_entry (bl : list blob) (cl : list cert) : dec entry :=
@@ -114,12 +123,50 @@ Definition get_served (bl : list blob) : dec served_obs :=
 (** [hs_own]: for a cache operation, the staple the implementation itself persisted for that
     certificate earlier in the history (seen as a successful Store of those bytes under ANY ocsp/
     key when it attached them) and which the harness has not touched since *)
-Record hstep := HStep { hs_op : op; hs_own : option blob; hs_post : sys; hs_calls : list call;
-                        hs_served : served_obs }.
+Record hstep := HStep { hs_op : op; hs_own : option blob; hs_ret : option (Z * option blob);
+                        hs_post : sys; hs_calls : list call; hs_served : served_obs }.
 
+(** [hs_ret]: for a handshake, what GetCertificate returned to it (certificate, staple) *)
 Definition get_hstep (bl : list blob) (cl : list cert) : dec hstep :=
-  o <- get_op bl cl ;; ow <- get_opt (get_ref bl) ;; s <- get_sys bl cl ;; c <- get_calls ;;
-  sv <- get_served bl ;; ret (HStep o ow s c sv).
+  o <- get_op bl cl ;; ow <- get_opt (get_ref bl) ;;
+  rt <- get_opt (c <- get_z ;; s <- get_opt (get_ref bl) ;; ret (c, s)) ;;
+  s <- get_sys bl cl ;; c <- get_calls ;;
+  sv <- get_served bl ;; ret (HStep o ow rt s c sv).
+
+Definition is_hs (k : mkind) : bool := match k with KHandshake => true | _ => false end.
+
+(** the entry a handshake operation is about *)
+Definition hs_entry (pre : sys) (o : op) : option entry :=
+  match o with
+  | OMaintain ks _ _ _ _ => find (fun en => is_hs (ks (c_id (en_cert en)))) (cache pre)
+  | _ => None
+  end.
+
+(** model: what that handshake gets back *)
+Definition hs_expected (pre : sys) (o : op) : option (Z * option blob) :=
+  match o, hs_entry pre o with
+  | OMaintain _ dis now envs _, Some en =>
+      let id := c_id (en_cert en) in
+      Some (id, cs_staple (hs_returned dis now (envs id) en (stor pre)))
+  | _, _ => None
+  end.
+
+Definition ret_eqb (a b : option (Z * option blob)) : bool :=
+  match a, b with
+  | Some (c, s), Some (c', s') => (c =? c') && oblob_eqb s s'
+  | None, None => true
+  | _, _ => false
+  end.
+
+(** monitor: the staple handed to the handshake is the one the cached certificate had, or may be
+    attached now; and it is for the certificate that was in the cache for that name *)
+Definition ret_ok (pre : sys) (o : op) (rt : option (Z * option blob)) : bool :=
+  match o, hs_entry pre o, rt with
+  | OMaintain _ _ now _ _, Some en, Some (c, s) =>
+      (c =? c_id (en_cert en)) && ret_sound (en_cert en) (cs_staple (en_cs en)) s now
+  | OMaintain _ _ _ _ _, Some _, None => false
+  | _, _, _ => true
+  end.
 
 Definition own_reuse_step (h : hstep) : bool :=
   match hs_op h with
@@ -212,9 +259,11 @@ Fixpoint check_hist (certs : list cert) (pre : sys) (l : list hstep) (agree spec
       let '(mpost, mcalls) := step pre (hs_op h) in
       let a := cache_eqb (cache mpost) (cache (hs_post h)) &&
                store_eqb certs (stor mpost) (stor (hs_post h)) &&
-               calls_eqb mcalls (hs_calls h) && served_eqb (cache mpost) (hs_served h) in
+               calls_eqb mcalls (hs_calls h) && served_eqb (cache mpost) (hs_served h) &&
+               ret_eqb (hs_expected pre (hs_op h)) (hs_ret h) in
       let s := spec_step pre (hs_op h) (hs_post h) (hs_calls h) &&
-               served_consistent (hs_post h) (hs_served h) && own_reuse_step h in
+               served_consistent (hs_post h) (hs_served h) && own_reuse_step h &&
+               ret_ok pre (hs_op h) (hs_ret h) in
       check_hist certs (hs_post h) r (agree && a) (spec && s)
   end.
 
@@ -252,6 +301,7 @@ Fixpoint explain_hist (certs : list cert) (pre : sys) (l : list hstep) : list Z 
        zb (step_corrupt pre (hs_op h) (hs_post h) (hs_calls h));
        zb (step_revoked pre (hs_op h) (hs_post h) (hs_calls h));
        zb (step_persist pre (hs_op h) (hs_post h)); zb (own_reuse_step h);
+       zb (ret_eqb (hs_expected pre (hs_op h)) (hs_ret h)); zb (ret_ok pre (hs_op h) (hs_ret h));
        Z.of_nat (length (cache mpost))] ++
       flat_map (fun en => [c_id (en_cert en); zb (en_managed en); oid (cs_staple (en_cs en));
                            ost (cs_ocsp (en_cs en))]) (cache mpost) ++
